@@ -207,13 +207,14 @@ PROPS["C16"] = dict(
                        "the upper halves of RAX/RDX at WRMSR/XSETBV are don't-care"],
 )
 PROPS["C17"] = dict(
-    profiles=BOTH, level="model_checking", units=units_simple(16), engine="vh C17",
+    profiles=BOTH + ["dbg"], level="model_checking", units=units_simple(16), engine="vh C17",
     technique="exhaustive enumeration of nesting programs up to a depth/branching bound, each interpreted by real nested calls under single-stepping with the interrupt flag held in the CPU model",
     rule=("all trees of without_interrupts nestings with depth<=3 and <=2 siblings, depth<=2 and <=3 siblings, chains to depth 8 (thorough: + depth 2 x 4 siblings, depth 4 x 1) x initial "
           "IF in {0,1} x 2 result seeds, interpreted by real nested calls; in every closure body IF (read from the CPU model, not through the crate) is 0, each body runs once, after each "
           "call IF equals its value before, the result passes through, only pushfq/cli/sti are executed; enable/disable/are_enabled x 6 flag words; enable_and_hlt: the executed "
           "stream is sti immediately followed by hlt at the adjacent address."),
-    assumptions=_E4 + ["atomicity of sti;hlt (interrupt shadow) is a hardware guarantee; checked as adjacency in the executed instruction stream"],
+    assumptions=_E4 + ["atomicity of sti;hlt (interrupt shadow) is a hardware guarantee; checked as adjacency in the executed instruction stream",
+                       "three build profiles: optimised with / without overflow checks, and unoptimised (dbg, opt-level 0: wrappers not inlined)"],
 )
 PROPS["C18"] = dict(
     profiles=BOTH, level="exploration", units=units_simple(16), engine="vh C18",
@@ -224,15 +225,21 @@ PROPS["C18"] = dict(
 )
 def c20_units(tier):
     us = [dict(sub="C20", profile="chk", shards=16)]
+    # dynamic part: every recursive-window page touched in the mapper search is the recursive address of a table the call concerns
+    for cfg, q, t in MAPPER_CONFIGS:
+        if cfg.startswith("rec"):
+            us.append(dict(sub="MAPPER", profile="chk", args=[cfg, q if tier == "quick" else t, "1500000" if tier == "quick" else "20000000"]))
     for R, pb in [(1, "0x0"), (2, "0xe800000000000"), (126, "0x0"), (126, "0xfffff00000000"), (200, "0x40000000"), (248, "0x0"), (248, "0x8000000000000")]:
         us.append(dict(sub="C20", profile="chk", args=["ctor", str(R), pb]))
     return us
 PROPS["C20"] = dict(
-    profiles=["chk"], level="exploration", units=c20_units, engine="vh C20",
+    profiles=["chk"], level="model_checking", timeout={"quick": 300, "thorough": 3000}, units=c20_units, engine="vh C20",
     rule=("address computation: ALL 512 recursive indices x each upper page index through all 512 values (others in {0,1,255,256,511}) x 3 sizes, p3/p2/p1 table pages and pointers "
           "(through the verif_hooks accessors) == sign_extend(R<<39|R<<30|R<<21|p4<<12) etc.; constructor: for R in {1,2,126,200,248} a real table at (R,R,R,R) (the simulated level-4 "
           "frame) and real pages at every near-recursive address (one index +1/-1/+2 in each position) x 6 CR3 contents (emulated mov r,cr3; physical bases incl. addresses above 2^48) x 7 contents of the candidate slot (incl. a frame differing only in physical bits 48..51): "
-          "NotRecursive / NotActive / Ok exactly as specified; the index it then uses is observed from the first recursive-window address it dereferences."),
+          "NotRecursive / NotActive / Ok exactly as specified; the index it then uses is observed from the first recursive-window address it dereferences. "
+          "Dynamic part (6 recursive configurations of the mapper search, R in {1,2,126,200,248}, incl. pages whose level-3/2/1 index equals R): every recursive-window page "
+          "the mapper touches during a call must be (R,R,R,p4) / (R,R,p4,p3) / (R,p4,p3,p2) of the page it works on, and clean-up must visit exactly the tables that overlap its range, each through its own recursive address."),
     assumptions=_E4 + ["recursive indices >= 256 are reached for the address computation only (kernel-half addresses cannot be mapped in a user process)"],
 )
 ENGINES[0]["serves_properties"] = sorted(PROPS.keys())
